@@ -628,3 +628,470 @@ Proof.
 Qed.
 
 End Oracles.
+
+(* ------------------------------------------------------------------ *)
+(* the id binds inputs, outputs and timestamp                          *)
+(* render o marshal_idbody is injective (on all values, well-formed or  *)
+(* not): each printed component is uniquely decodable from a prefix.   *)
+(* ------------------------------------------------------------------ *)
+
+Lemma sapp_assoc a b c : (a ++ b) ++ c = a ++ (b ++ c).
+Proof. induction a as [|x a IH]; cbn; [reflexivity | rewrite IH; reflexivity]. Qed.
+Lemma sapp_nil_r a : a ++ "" = a.
+Proof. induction a as [|x a IH]; cbn; [reflexivity | rewrite IH; reflexivity]. Qed.
+Lemma sapp_inv_head p a b : p ++ a = p ++ b -> a = b.
+Proof. induction p as [|x p IH]; cbn; intros Hp; [exact Hp | injection Hp as Hp; auto]. Qed.
+
+(* ---- quoted strings: a left inverse of escape ---- *)
+Definition cons_fst (c : ascii) (o : option (string * string)) : option (string * string) :=
+  match o with Some (a, r) => Some (String c a, r) | None => None end.
+Definition hexval (c : ascii) : N :=
+  let n := N_of_ascii c in if (n <? 58)%N then (n - 48)%N else (n - 87)%N.
+
+Fixpoint unesc (s : string) : option (string * string) :=
+  match s with
+  | EmptyString => None
+  | String c r =>
+    let b := N_of_ascii c in
+    if (b =? 34)%N then Some (EmptyString, r)
+    else if (b =? 92)%N then
+      match r with
+      | String e r1 =>
+        let x := N_of_ascii e in
+        if (x =? 34)%N || (x =? 92)%N then cons_fst e (unesc r1)
+        else if (x =? 98)%N then cons_fst (ascii_of_N 8) (unesc r1)
+        else if (x =? 102)%N then cons_fst (ascii_of_N 12) (unesc r1)
+        else if (x =? 110)%N then cons_fst (ascii_of_N 10) (unesc r1)
+        else if (x =? 114)%N then cons_fst (ascii_of_N 13) (unesc r1)
+        else if (x =? 116)%N then cons_fst (ascii_of_N 9) (unesc r1)
+        else
+          match r1 with
+          | String h1 (String h2 (String h3 (String h4 r5))) =>
+            if (N_of_ascii h1 =? 50)%N
+            then cons_fst (ascii_of_N 226) (cons_fst (ascii_of_N 128)
+                   (cons_fst (ascii_of_N (160 + hexval h4)) (unesc r5)))
+            else cons_fst (ascii_of_N (hexval h3 * 16 + hexval h4)) (unesc r5)
+          | _ => None
+          end
+      | EmptyString => None
+      end
+    else cons_fst c (unesc r)
+  end.
+
+(* the escaping of one byte that is not the start of U+2028/9, in front of an escaped rest *)
+Definition esc_default (c : ascii) (rest : string) : string :=
+  let b := N_of_ascii c in
+  if (b =? 34)%N then String "\" (String c rest)
+  else if (b =? 92)%N then String "\" (String c rest)
+  else if (b =? 8)%N then "\b" ++ rest
+  else if (b =? 12)%N then "\f" ++ rest
+  else if (b =? 10)%N then "\n" ++ rest
+  else if (b =? 13)%N then "\r" ++ rest
+  else if (b =? 9)%N then "\t" ++ rest
+  else if (b <? 32)%N || (b =? 60)%N || (b =? 62)%N || (b =? 38)%N then esc_u00 b ++ rest
+  else String c rest.
+
+Lemma escape_unfold c r :
+  escape (String c r) =
+  match (N_of_ascii c =? 226)%N, r with
+  | true, String c1 (String c2 r2) =>
+    if (N_of_ascii c1 =? 128)%N && ((N_of_ascii c2 =? 168)%N || (N_of_ascii c2 =? 169)%N)
+    then "\u202" ++ String (hex_digit (N_of_ascii c2 - 160)) (escape r2)
+    else String c (escape r)
+  | _, _ => esc_default c (escape r)
+  end.
+Proof. reflexivity. Qed.
+
+Lemma esc_default_app c X s : esc_default c X ++ s = esc_default c (X ++ s).
+Proof.
+  unfold esc_default.
+  repeat match goal with |- context [if ?b then _ else _] => destruct b end;
+    cbn [append]; rewrite ?sapp_assoc; reflexivity.
+Qed.
+
+Lemma unesc_default c X a s : unesc X = Some (a, s) -> unesc (esc_default c X) = Some (String c a, s).
+Proof.
+  intros HX.
+  destruct c as [[|] [|] [|] [|] [|] [|] [|] [|]]; cbn; rewrite HX; reflexivity.
+Qed.
+
+Lemma ascii_of_N_eq c n : N_of_ascii c = n -> c = ascii_of_N n.
+Proof. intros <-. symmetry. apply ascii_N_embedding. Qed.
+
+Lemma unesc_escape_n : forall n a s, (String.length a <= n)%nat ->
+  unesc (escape a ++ String """" s) = Some (a, s).
+Proof.
+  induction n as [|n IH]; intros a s Hl.
+  - destruct a; [reflexivity | cbn in Hl; lia].
+  - destruct a as [|c r]; [reflexivity|].
+    cbn [String.length] in Hl.
+    assert (IHr : unesc (escape r ++ String """" s) = Some (r, s)) by (apply IH; lia).
+    assert (Hdef : unesc (esc_default c (escape r) ++ String """" s) = Some (String c r, s))
+      by (rewrite esc_default_app; apply unesc_default; exact IHr).
+    rewrite escape_unfold.
+    destruct (N_of_ascii c =? 226)%N eqn:E226; [|exact Hdef].
+    destruct r as [|c1 [|c2 r2]]; [exact Hdef | exact Hdef |].
+    apply N.eqb_eq, ascii_of_N_eq in E226. subst c.
+    destruct ((N_of_ascii c1 =? 128)%N && ((N_of_ascii c2 =? 168)%N || (N_of_ascii c2 =? 169)%N)) eqn:Ec.
+    + apply andb_prop in Ec. destruct Ec as [E1 E2].
+      apply N.eqb_eq, ascii_of_N_eq in E1. subst c1.
+      assert (IH2 : unesc (escape r2 ++ String """" s) = Some (r2, s))
+        by (apply IH; cbn [String.length] in Hl; lia).
+      apply orb_prop in E2. destruct E2 as [E2|E2]; apply N.eqb_eq, ascii_of_N_eq in E2; subst c2;
+        cbn; rewrite IH2; reflexivity.
+    + exact Hdef.
+Qed.
+
+Definition parse_quote (s : string) : option (string * string) :=
+  match s with
+  | String c r => if (N_of_ascii c =? 34)%N then unesc r else None
+  | EmptyString => None
+  end.
+
+Lemma parse_quote_ok a s : parse_quote (quote a ++ s) = Some (a, s).
+Proof.
+  unfold quote. cbn [append parse_quote]. cbn [N_of_ascii N.eqb]. 
+  rewrite sapp_assoc. cbn [append]. eapply unesc_escape_n. apply le_n.
+Qed.
+
+Lemma ud_quote a a' s s' : quote a ++ s = quote a' ++ s' -> a = a' /\ s = s'.
+Proof.
+  intros Hq. apply (f_equal parse_quote) in Hq. rewrite !parse_quote_ok in Hq.
+  injection Hq as -> ->. split; reflexivity.
+Qed.
+
+(* ---- decimal numbers ---- *)
+Definition is_digit (c : ascii) : bool := let n := N_of_ascii c in (48 <=? n)%N && (n <=? 57)%N.
+
+Fixpoint read_nat (acc : N) (s : string) : N * string :=
+  match s with
+  | String c r => if is_digit c then read_nat (acc * 10 + (N_of_ascii c - 48)) r else (acc, s)
+  | EmptyString => (acc, s)
+  end.
+
+Definition nodigit (s : string) : Prop :=
+  match s with String c _ => is_digit c = false | EmptyString => True end.
+
+Lemma read_nat_nodigit k s : nodigit s -> read_nat k s = (k, s).
+Proof. destruct s as [|c r]; cbn; [reflexivity | intros ->; reflexivity]. Qed.
+
+Lemma digit_char_spec d : (d < 10)%N ->
+  is_digit (digit_char d) = true /\ (N_of_ascii (digit_char d) - 48 = d)%N.
+Proof.
+  intros Hd. unfold is_digit, digit_char. rewrite N_ascii_embedding by lia.
+  split; [apply andb_true_intro; split; apply N.leb_le; lia | lia].
+Qed.
+
+Lemma pos_digits_app f : forall n acc s, pos_digits f n acc ++ s = pos_digits f n (acc ++ s).
+Proof.
+  induction f as [|f IH]; intros n acc s; cbn [pos_digits]; [reflexivity|].
+  destruct (n / 10 =? 0)%N; [reflexivity | rewrite IH; reflexivity].
+Qed.
+
+Lemma read_pos_digits f : forall n acc, (n < 2 ^ N.of_nat f)%N ->
+  exists m, forall k, read_nat k (pos_digits f n acc) = read_nat (k * m + n) acc.
+Proof.
+  induction f as [|f IH]; intros n acc Hn.
+  - cbn in Hn. exists 1%N. intros k. cbn [pos_digits]. f_equal. lia.
+  - rewrite Nat2N.inj_succ, N.pow_succ_r' in Hn. cbn [pos_digits].
+    assert (Hm : (n mod 10 < 10)%N) by (apply N.mod_lt; discriminate).
+    destruct (digit_char_spec _ Hm) as [Hd Hv].
+    assert (Hdm : (n = 10 * (n / 10) + n mod 10)%N) by (apply N.div_mod; discriminate).
+    destruct (n / 10 =? 0)%N eqn:E.
+    + apply N.eqb_eq in E. exists 10%N. intros k. cbn [read_nat]. rewrite Hd, Hv. f_equal. lia.
+    + assert (Hlt : (n / 10 < 2 ^ N.of_nat f)%N).
+      { apply N.div_lt_upper_bound; [discriminate|]. lia. }
+      destruct (IH (n / 10)%N (String (digit_char (n mod 10)) acc) Hlt) as [m Hmk].
+      exists (m * 10)%N. intros k. rewrite Hmk. cbn [read_nat]. rewrite Hd, Hv. f_equal. lia.
+Qed.
+
+Lemma pos_size p : (Npos p < 2 ^ N.of_nat (Pos.size_nat p))%N.
+Proof.
+  induction p as [p IH|p IH|]; cbn [Pos.size_nat].
+  - rewrite Nat2N.inj_succ, N.pow_succ_r'. lia.
+  - rewrite Nat2N.inj_succ, N.pow_succ_r'. lia.
+  - cbn. lia.
+Qed.
+
+Lemma N_size_lt n : (n < 2 ^ N.of_nat (S (N.size_nat n)))%N.
+Proof.
+  rewrite Nat2N.inj_succ, N.pow_succ_r'. destruct n as [|p]; cbn [N.size_nat].
+  - cbn. lia.
+  - pose proof (pos_size p). lia.
+Qed.
+
+Lemma read_N_to_dec n s : nodigit s -> read_nat 0 (N_to_dec n ++ s) = (n, s).
+Proof.
+  intros Hs. unfold N_to_dec. rewrite pos_digits_app. cbn [append].
+  destruct (read_pos_digits _ n s (N_size_lt n)) as [m Hm].
+  rewrite Hm. cbn [N.mul N.add]. apply read_nat_nodigit. exact Hs.
+Qed.
+
+Lemma pos_digits_head f n acc : exists d r, (d < 10)%N /\ pos_digits (S f) n acc = String (digit_char d) r.
+Proof.
+  revert n acc. induction f as [|f IH]; intros n acc.
+  - cbn [pos_digits]. exists (n mod 10)%N, acc. split; [apply N.mod_lt; discriminate|].
+    destruct (n / 10 =? 0)%N; reflexivity.
+  - remember (S f) as f'. cbn [pos_digits]. destruct (n / 10 =? 0)%N.
+    + exists (n mod 10)%N, acc. split; [apply N.mod_lt; discriminate | reflexivity].
+    + subst f'. apply IH.
+Qed.
+
+Definition read_Z (s : string) : Z * string :=
+  match s with
+  | String c r =>
+    if (N_of_ascii c =? 45)%N then let (n, r') := read_nat 0 r in (- Z.of_N n, r')%Z
+    else let (n, r') := read_nat 0 s in (Z.of_N n, r')
+  | EmptyString => (0%Z, s)
+  end.
+
+Lemma read_Z_dec z s : nodigit s -> read_Z (Z_to_dec z ++ s) = (z, s).
+Proof.
+  intros Hs. destruct z as [|p|p]; cbn [Z_to_dec].
+  - cbn. rewrite read_nat_nodigit by exact Hs. reflexivity.
+  - pose proof (read_N_to_dec (Npos p) s Hs) as Hr. unfold N_to_dec in *.
+    destruct (pos_digits_head (N.size_nat (Npos p)) (Npos p) "") as (d & r & Hd & Eq).
+    rewrite Eq in *. cbn [append read_Z].
+    replace (N_of_ascii (digit_char d) =? 45)%N with false.
+    + cbn [append] in Hr. rewrite Hr. reflexivity.
+    + symmetry. apply N.eqb_neq. unfold digit_char. rewrite N_ascii_embedding by lia. lia.
+  - cbn [append read_Z]. cbn [N_of_ascii N.eqb Pos.eqb]. rewrite read_N_to_dec by exact Hs. reflexivity.
+Qed.
+
+Lemma ud_Z z z' s s' : nodigit s -> nodigit s' ->
+  Z_to_dec z ++ s = Z_to_dec z' ++ s' -> z = z' /\ s = s'.
+Proof.
+  intros Hs Hs' Hq. apply (f_equal read_Z) in Hq. rewrite !read_Z_dec in Hq by assumption.
+  injection Hq as -> ->. split; reflexivity.
+Qed.
+
+Definition bstr (b : bool) : string := if b then "true" else "false".
+Lemma ud_bool b b' s s' : bstr b ++ s = bstr b' ++ s' -> b = b' /\ s = s'.
+Proof.
+  destruct b, b'; cbn; intros Hq; try discriminate; injection Hq as ->; split; reflexivity.
+Qed.
+
+(* ---- lists ---- *)
+Definition jtail (l : list string) : string :=
+  match l with [] => "" | _ => "," ++ join "," l end.
+
+Lemma join_cons x r : join "," (x :: r) = x ++ jtail r.
+Proof. destruct r; cbn [join jtail]; [rewrite sapp_nil_r|]; reflexivity. Qed.
+
+Section UdList.
+Context {A : Type} (p : A -> string).
+Hypothesis p_ud : forall a a' s s', p a ++ s = p a' ++ s' -> a = a' /\ s = s'.
+Hypothesis p_brace : forall a, exists r, p a = String "{" r.
+
+Lemma ud_join : forall l l' s s',
+  join "," (map p l) ++ String "]" s = join "," (map p l') ++ String "]" s' -> l = l' /\ s = s'.
+Proof.
+  induction l as [|a r IH]; intros l' s s' Hq.
+  - destruct l' as [|a' r'].
+    + cbn in Hq. injection Hq as ->. split; reflexivity.
+    + exfalso. cbn [map] in Hq. rewrite join_cons, sapp_assoc in Hq.
+      destruct (p_brace a') as [x Hx]. rewrite Hx in Hq. cbn in Hq. discriminate.
+  - destruct l' as [|a' r'].
+    + exfalso. cbn [map] in Hq. rewrite join_cons, sapp_assoc in Hq.
+      destruct (p_brace a) as [x Hx]. rewrite Hx in Hq. cbn in Hq. discriminate.
+    + cbn [map] in Hq. rewrite !join_cons, !sapp_assoc in Hq.
+      apply p_ud in Hq. destruct Hq as [-> Hq].
+      destruct r as [|b r0], r' as [|b' r0']; cbn [map jtail] in Hq.
+      * cbn in Hq. injection Hq as ->. split; reflexivity.
+      * cbn in Hq. discriminate.
+      * cbn in Hq. discriminate.
+      * cbn [append] in Hq. injection Hq as Hq.
+        destruct (IH (b' :: r0') s s' Hq) as [-> ->]. split; reflexivity.
+Qed.
+End UdList.
+
+Lemma ud_slice {A} (m : A -> json) :
+  (forall a a' s s', render (m a) ++ s = render (m a') ++ s' -> a = a' /\ s = s') ->
+  (forall a, exists r, render (m a) = String "{" r) ->
+  forall l l' s s', render (jslice m l) ++ s = render (jslice m l') ++ s' -> l = l' /\ s = s'.
+Proof.
+  intros Hud Hbr [l|] [l'|] s s' Hq; cbn [jslice render] in Hq.
+  - rewrite !map_map in Hq. cbn [append] in Hq. injection Hq as Hq. rewrite !sapp_assoc in Hq.
+    cbn [append] in Hq.
+    destruct (ud_join (fun a => render (m a)) Hud Hbr l l' s s' Hq) as [-> ->]. split; reflexivity.
+  - cbn in Hq. discriminate.
+  - cbn in Hq. discriminate.
+  - cbn in Hq. injection Hq as ->. split; reflexivity.
+Qed.
+
+(* ---- the objects ---- *)
+Lemma render_output_flat o s :
+  render (marshal_output o) ++ s =
+  "{""address"":" ++ (quote (o_addr o) ++ (",""is_yielding"":" ++ (bstr (o_yield o) ++
+  (",""value"":" ++ (Z_to_dec (Z.of_N (o_val o)) ++ String "}" s))))).
+Proof.
+  unfold marshal_output. cbn [render map join fst snd]. rewrite !sapp_assoc.
+  destruct (o_yield o); reflexivity.
+Qed.
+
+Lemma nodigit_brace s : nodigit (String "}" s).
+Proof. reflexivity. Qed.
+Lemma nodigit_comma s : nodigit (String "," s).
+Proof. reflexivity. Qed.
+
+Lemma ud_output o o' s s' :
+  render (marshal_output o) ++ s = render (marshal_output o') ++ s' -> o = o' /\ s = s'.
+Proof.
+  rewrite !render_output_flat. intros Hq.
+  apply sapp_inv_head in Hq. apply ud_quote in Hq. destruct Hq as [Ha Hq].
+  apply sapp_inv_head in Hq. apply ud_bool in Hq. destruct Hq as [Hy Hq].
+  apply sapp_inv_head in Hq. apply ud_Z in Hq; [|apply nodigit_brace|apply nodigit_brace].
+  destruct Hq as [Hv Hq]. injection Hq as ->. apply N2Z.inj in Hv.
+  destruct o, o'; cbn in *; subst; split; reflexivity.
+Qed.
+
+Lemma render_input_flat i s :
+  render (marshal_input i) ++ s =
+  "{""output_index"":" ++ (Z_to_dec (Z.of_N (i_idx i)) ++ (",""transaction_id"":" ++ (quote (i_ref i) ++
+  (",""public_key"":" ++ (quote (i_key i) ++ (",""signature"":" ++ (quote (i_sig i) ++ String "}" s))))))).
+Proof.
+  unfold marshal_input. cbn [render map join fst snd]. rewrite !sapp_assoc. reflexivity.
+Qed.
+
+Lemma ud_input i i' s s' :
+  render (marshal_input i) ++ s = render (marshal_input i') ++ s' -> i = i' /\ s = s'.
+Proof.
+  rewrite !render_input_flat. intros Hq.
+  apply sapp_inv_head in Hq. apply ud_Z in Hq; [|apply nodigit_comma|apply nodigit_comma].
+  destruct Hq as [Hn Hq]. apply N2Z.inj in Hn.
+  apply sapp_inv_head in Hq. apply ud_quote in Hq. destruct Hq as [Hr Hq].
+  apply sapp_inv_head in Hq. apply ud_quote in Hq. destruct Hq as [Hk Hq].
+  apply sapp_inv_head in Hq. apply ud_quote in Hq. destruct Hq as [Hs Hq].
+  injection Hq as ->. destruct i, i'; cbn in *; subst; split; reflexivity.
+Qed.
+
+Lemma output_brace o : exists r, render (marshal_output o) = String "{" r.
+Proof. eexists. reflexivity. Qed.
+Lemma input_brace i : exists r, render (marshal_input i) = String "{" r.
+Proof. eexists. reflexivity. Qed.
+
+Lemma render_idbody_flat i o ts s :
+  render (marshal_idbody i o ts) ++ s =
+  "{""inputs"":" ++ (render (jslice marshal_input i) ++ (",""outputs"":" ++
+  (render (jslice marshal_output o) ++ (",""timestamp"":" ++ (Z_to_dec ts ++ String "}" s))))).
+Proof.
+  unfold marshal_idbody. cbn [render map join fst snd]. rewrite !sapp_assoc. reflexivity.
+Qed.
+
+Theorem render_idbody_inj i o ts i' o' ts' :
+  render (marshal_idbody i o ts) = render (marshal_idbody i' o' ts') ->
+  i = i' /\ o = o' /\ ts = ts'.
+Proof.
+  intros Hq. apply (f_equal (fun x => x ++ "")) in Hq. rewrite !render_idbody_flat in Hq.
+  apply sapp_inv_head in Hq.
+  apply (ud_slice marshal_input ud_input input_brace) in Hq. destruct Hq as [Hi Hq].
+  apply sapp_inv_head in Hq.
+  apply (ud_slice marshal_output ud_output output_brace) in Hq. destruct Hq as [Ho Hq].
+  apply sapp_inv_head in Hq. apply ud_Z in Hq; [|apply nodigit_brace|apply nodigit_brace].
+  destruct Hq as [Ht _]. auto.
+Qed.
+
+(* ---- bytes and hex ---- *)
+Lemma bytes_of_string_inj a b : bytes_of_string a = bytes_of_string b -> a = b.
+Proof.
+  revert b. induction a as [|c r IH]; intros [|c' r']; cbn; intros Hq; try discriminate; [reflexivity|].
+  injection Hq as Hc Hr. f_equal; [|apply IH; exact Hr].
+  rewrite <- (ascii_N_embedding c), <- (ascii_N_embedding c'), Hc. reflexivity.
+Qed.
+
+Lemma hex_digit_n_inj n m : (n < 16)%N -> (m < 16)%N -> hex_digit_n n = hex_digit_n m -> n = m.
+Proof.
+  intros Hn Hm Hq. apply (f_equal N_of_ascii) in Hq. unfold hex_digit_n in Hq.
+  destruct (n <? 10)%N eqn:En, (m <? 10)%N eqn:Em;
+    rewrite !N_ascii_embedding in Hq by lia;
+    try apply N.ltb_lt in En; try apply N.ltb_ge in En;
+    try apply N.ltb_lt in Em; try apply N.ltb_ge in Em; lia.
+Qed.
+
+Definition all_bytes (l : list N) : Prop := Forall (fun b => (b < 256)%N) l.
+
+Lemma hex_of_bytes_inj a : forall b, all_bytes a -> all_bytes b -> hex_of_bytes a = hex_of_bytes b -> a = b.
+Proof.
+  induction a as [|x r IH]; intros [|y r'] Ha Hb Hq; cbn in Hq; try discriminate; [reflexivity|].
+  apply Forall_cons_iff in Ha. destruct Ha as [Hx Hr]. apply Forall_cons_iff in Hb. destruct Hb as [Hy Hr'].
+  injection Hq as Q1 Q2 Q3.
+  apply hex_digit_n_inj in Q1; [| apply N.div_lt_upper_bound; lia | apply N.div_lt_upper_bound; lia].
+  apply hex_digit_n_inj in Q2; [| apply N.mod_lt; discriminate | apply N.mod_lt; discriminate].
+  f_equal; [| apply IH; assumption].
+  rewrite (N.div_mod x 16), (N.div_mod y 16) by discriminate. rewrite Q1, Q2. reflexivity.
+Qed.
+
+(* the hash (any hash) of the rendered id body *)
+Section IdBinds.
+Variable H : list N -> list N.
+Hypothesis H_bytes : forall x, all_bytes (H x).
+
+Theorem C15_id_binds i1 o1 ts1 i2 o2 ts2 :
+  gen_id H i1 o1 ts1 = gen_id H i2 o2 ts2 ->
+  (i1, o1, ts1) = (i2, o2, ts2) \/ exists x y : list N, x <> y /\ H x = H y.
+Proof.
+  unfold gen_id. intros Hq. apply hex_of_bytes_inj in Hq; [|apply H_bytes|apply H_bytes].
+  destruct (list_eq_dec N.eq_dec
+              (bytes_of_string (render (marshal_idbody i1 o1 ts1)))
+              (bytes_of_string (render (marshal_idbody i2 o2 ts2)))) as [Eb|Nb].
+  - left. apply bytes_of_string_inj, render_idbody_inj in Eb. destruct Eb as (-> & -> & ->). reflexivity.
+  - right. eexists _, _. split; [exact Nb | exact Hq].
+Qed.
+End IdBinds.
+
+(* sha256 returns bytes *)
+Lemma compress_lt h blk : Forall (fun x => (x < w32)%N) (compress h blk).
+Proof.
+  unfold compress. cbv zeta.
+  repeat (constructor; [unfold add32; apply N.mod_lt; discriminate|]). constructor.
+Qed.
+
+Lemma blocks_loop_lt f : forall h ws, Forall (fun x => (x < w32)%N) h ->
+  Forall (fun x => (x < w32)%N) (blocks_loop f h ws).
+Proof.
+  induction f as [|f IH]; intros h ws Hh; cbn [blocks_loop]; [exact Hh|].
+  destruct ws; [exact Hh|]. apply IH. apply compress_lt.
+Qed.
+
+Lemma bytes_of_word_lt w : (w < w32)%N -> all_bytes (bytes_of_word w).
+Proof.
+  intros Hw. unfold bytes_of_word, all_bytes, w32 in *.
+  repeat constructor; try (apply N.mod_lt; discriminate).
+  apply N.div_lt_upper_bound; [discriminate | lia].
+Qed.
+
+Lemma sha256_bytes x : all_bytes (sha256 x).
+Proof.
+  unfold sha256. cbv zeta.
+  assert (Hl : Forall (fun w => (w < w32)%N)
+                 (blocks_loop (S (length (words_of_bytes (pad x)))) H0 (words_of_bytes (pad x)))).
+  { apply blocks_loop_lt. unfold H0, w32. repeat constructor. }
+  induction Hl as [|w r Hw Hr IH]; cbn [flat_map]; [constructor|].
+  apply Forall_app. split; [apply bytes_of_word_lt; exact Hw | exact IH].
+Qed.
+
+(* without any assumption on the hash: a collision of the printed digest *)
+Theorem C15_id_binds_hex (H : list N -> list N) i1 o1 ts1 i2 o2 ts2 :
+  gen_id H i1 o1 ts1 = gen_id H i2 o2 ts2 ->
+  (i1, o1, ts1) = (i2, o2, ts2) \/
+  exists x y : list N, x <> y /\ hex_of_bytes (H x) = hex_of_bytes (H y).
+Proof.
+  unfold gen_id. intros Hq.
+  destruct (list_eq_dec N.eq_dec
+              (bytes_of_string (render (marshal_idbody i1 o1 ts1)))
+              (bytes_of_string (render (marshal_idbody i2 o2 ts2)))) as [Eb|Nb].
+  - left. apply bytes_of_string_inj, render_idbody_inj in Eb. destruct Eb as (-> & -> & ->). reflexivity.
+  - right. eexists _, _. split; [exact Nb | exact Hq].
+Qed.
+
+(* two decoded transactions with the same id have the same inputs, outputs and timestamp *)
+Theorem C15_decoded_same_id (on_curve : string -> bool) (H : list N -> list N) j1 j2 t1 t2 :
+  (forall x, all_bytes (H x)) ->
+  unmarshal_tx on_curve H j1 = Ok t1 -> unmarshal_tx on_curve H j2 = Ok t2 ->
+  t_id t1 = t_id t2 -> t1 = t2 \/ exists x y : list N, x <> y /\ H x = H y.
+Proof.
+  intros Hb D1 D2 Hid.
+  pose proof (C15_id_checked _ _ _ _ D1) as I1. pose proof (C15_id_checked _ _ _ _ D2) as I2.
+  rewrite I1, I2 in Hid. apply (C15_id_binds H Hb) in Hid. destruct Hid as [Heq|Hc]; [left|right; exact Hc].
+  injection Heq as Hi Ho Ht. destruct t1, t2; cbn in *. subst. reflexivity.
+Qed.
